@@ -287,7 +287,7 @@ func (s *genState) genCall(ci int) Call {
 				}
 				return -1
 			}
-			if b.Op == "handlers" {
+			if b.Op == "handlers" || b.Op == "inert" {
 				return -1
 			}
 			j = b.Parent
@@ -326,6 +326,8 @@ func (s *genState) genCall(ci int) Call {
 		switch {
 		case j == 0 || x < 40:
 			cl.Script = append(cl.Script, BOp{Op: "items", Items: s.genItems(base, &next), Lambda: r.Chance(1, 5)})
+		case x < 43:
+			cl.Script = append(cl.Script, BOp{Op: "inert"})
 		case x < 55:
 			hs := []int{(ci+1)*10 + r.Range(1, 3)}
 			if r.Chance(1, 4) {
